@@ -521,7 +521,20 @@ def propagation(ck, rule):
                 continue
             rd = dotted(pf.ret_stmt.value) if pf.ret_stmt is not None and isinstance(pf.ret_stmt, ast.Return) else None
             state = {}
-            for t, pol in path_literals([(g[2] if g[2] is not None else g[0], g[1]) for g in pf.guards]):
+
+            def _unwrap(t):
+                """X.status[k] with X = Fxp(op) (operand coerced on this path) reads the flag of the operand role op"""
+                class _U(ast.NodeTransformer):
+                    def visit_Call(self, n):
+                        self.generic_visit(n)
+                        if prog.is_fxp_ctor(w, n) and len(n.args) == 1 and not n.keywords and isinstance(n.args[0], ast.Name) and n.args[0].id in ops:
+                            return n.args[0]
+                        return n
+                import copy as _cp
+                return _U().visit(_cp.deepcopy(t))
+            # the tests as written and as substituted (a named condition `flagged = x.status[..] or y.status[..]` shows only after substitution)
+            lits = list(path_literals([(g[2] if g[2] is not None else g[0], g[1]) for g in pf.guards])) + list(path_literals([(_unwrap(g[0]), g[1]) for g in pf.guards]))
+            for t, pol in lits:
                 if isinstance(t, ast.Subscript):
                     sk = status_key(t)
                     if sk and sk[1] == "inaccuracy" and sk[0] in ops:
